@@ -118,16 +118,16 @@ class SimFS:
             self._die()
 
 
-class SimFile:
-    """Write-through file object (no user-space buffer: every write() is a
-    crash-gated syscall, so every byte prefix is a reachable on-disk state)."""
+class SimFile(io.BufferedIOBase):
+    """File object whose writes are crash-gated syscalls (write-through, or
+    buffered like io.BufferedWriter when the SimFS says so)."""
 
     def __init__(self, fs, path, fd, mode, closefd=True):
         self.fs = fs
         self.path = path
         self.fd = fd
         self.mode = mode
-        self.closed = False
+        self._closed = False
         self.name = path
         self._closefd = closefd
         self._buf = bytearray()
@@ -235,14 +235,18 @@ class SimFile:
             raise SimCrash()
         self._flush_buffer()
 
+    @property
+    def closed(self):
+        return self._closed
+
     def close(self):
-        if self.closed:
+        if self._closed:
             return
         try:
             if not self.fs.crashed:
                 self._flush_buffer()
         finally:
-            self.closed = True
+            self._closed = True
             self.fs.fds.pop(self.fd, None)
             self.fs.simfiles.pop(self.fd, None)
             if self._closefd:
@@ -286,8 +290,7 @@ def _p_open(file, mode="r", *args, **kwargs):
         if fs.crashed:
             raise SimCrash()
         return _real["io.open"](file, mode, *args, **kwargs)
-    if "b" not in mode:
-        raise NotImplementedError("SimFS: text-mode writes are not simulated")
+    text = "b" not in mode
     path = os.fspath(file)
     fs.gate("open:" + mode.replace("b", ""), path)
     try:
@@ -300,6 +303,11 @@ def _p_open(file, mode="r", *args, **kwargs):
         fs.post()
     f = SimFile(fs, path, fd, mode)
     fs.simfiles[fd] = f
+    if text:
+        # text mode: the usual TextIOWrapper on top (its pending text is lost too when the process dies)
+        enc = kwargs.get("encoding") or (args[1] if len(args) > 1 and args[1] else None) or "utf-8"
+        return io.TextIOWrapper(f, encoding=enc, errors=kwargs.get("errors"), newline=kwargs.get("newline"),
+                                write_through=not fs.buffered)
     return f
 
 
